@@ -8,6 +8,7 @@ import (
 	"fmt"
 	"strconv"
 	"strings"
+	"sync/atomic"
 
 	"verif/internal/hx"
 	"verif/internal/vals"
@@ -17,6 +18,10 @@ import (
 type TruthCase struct {
 	Val vals.V   `json:"val"`
 	Pos []string `json:"pos,omitempty"`
+	// Prelude > 0: the positions are rendered, then a page that resolves Prelude paths never seen
+	// before in this process, then the positions again (vuego keeps process-wide caches of parsed
+	// paths and compiled expressions: what a path means must not depend on what was rendered before).
+	Prelude int `json:"prelude,omitempty"`
 }
 
 type position struct {
@@ -28,6 +33,8 @@ type position struct {
 	// skip leaves the position out for values it cannot hold.
 	data func(v vals.V) map[string]any
 	skip func(v vals.V) bool
+	// root builds root data that is not a map (a struct), used instead of data
+	root func(v vals.V) any
 }
 
 func findM(l []*hx.N, id string) []*hx.N {
@@ -181,8 +188,9 @@ type form struct {
 	wrap   [2]string // optional wrapper around the probing element (a v-for binding the path's head)
 	data   func(val any, missing bool) map[string]any
 	skip   func(v vals.V) bool
-	neg    string // negated spelling (default "!" + path)
-	noAttr bool   // the form is not written into a bound attribute
+	neg    string            // negated spelling (default "!" + path)
+	noAttr bool              // the form is not written into a bound attribute
+	root   func(val any) any // root data that is a struct (or a pointer to one) instead of a map
 }
 
 // Embedded is embedded by value in OuterV and by pointer in OuterP: its fields are promoted and
@@ -200,6 +208,38 @@ type OuterV struct {
 type OuterP struct {
 	*Embedded
 	Name string
+}
+
+// rootStruct is root data that is a struct, not a map: Draft is excluded from the JSON view
+// (json:"-") and addressed by its Go name, Val by JSON tag and by Go name, Plain has no tag; tt
+// and ff serve the positions that need a fixed true / false.
+type rootStruct struct {
+	Draft any `json:"-"`
+	Val   any `json:"val"`
+	Plain any
+	Tt    bool `json:"tt"`
+	Ff    bool `json:"ff"`
+}
+
+func rootStructForms() []form {
+	mk := func(name, path string, set func(r *rootStruct, v any), ptr bool) form {
+		return form{name: "root struct " + name, path: path, data: func(any, bool) map[string]any { return map[string]any{} },
+			root: func(v any) any {
+				r := rootStruct{Tt: true}
+				set(&r, v)
+				if ptr {
+					return &r
+				}
+				return r
+			}}
+	}
+	return []form{
+		mk(`field Draft tagged json:"-", by Go name`, "Draft", func(r *rootStruct, v any) { r.Draft = v }, false),
+		mk(`field Draft tagged json:"-", root is a pointer`, "Draft", func(r *rootStruct, v any) { r.Draft = v }, true),
+		mk("field by JSON tag val", "val", func(r *rootStruct, v any) { r.Val = v }, false),
+		mk("field by Go name Val", "Val", func(r *rootStruct, v any) { r.Val = v }, false),
+		mk("untagged field Plain", "Plain", func(r *rootStruct, v any) { r.Plain = v }, true),
+	}
 }
 
 func promotedForms() []form {
@@ -437,6 +477,16 @@ func formPositions() []position {
 			}
 			return d
 		}
+		var root func(v vals.V) any
+		if f.root != nil {
+			root = func(v vals.V) any {
+				var val any
+				if v.K != "missing" {
+					val = valGo(v)
+				}
+				return f.root(val)
+			}
+		}
 		w := func(s string) string { return f.wrap[0] + s + f.wrap[1] }
 		p := f.path
 		np := f.neg
@@ -444,16 +494,16 @@ func formPositions() []position {
 			np = "!" + p
 		}
 		if !f.noAttr {
-			out = append(out, position{name: f.name + " / :attr", tpl: w(`<p data-m="y" :data-x="` + p + `">Y</p>`), obs: hasAttr("y", "data-x"), data: data, skip: f.skip})
+			out = append(out, position{name: f.name + " / :attr", tpl: w(`<p data-m="y" :data-x="` + p + `">Y</p>`), obs: hasAttr("y", "data-x"), data: data, skip: f.skip, root: root})
 		}
 		out = append(out,
-			position{name: f.name + " / v-if", tpl: w(`<p data-m="y" v-if="` + p + `">Y</p>`), obs: present("y"), data: data, skip: f.skip},
-			position{name: f.name + " / v-else-if", tpl: w(`<p data-m="n" v-if="ff">N</p><p data-m="y" v-else-if="` + p + `">Y</p><p data-m="e" v-else>E</p>`), obs: elseIf, data: data, skip: f.skip},
-			position{name: f.name + " / v-show", tpl: w(`<p data-m="y" v-show="` + p + `">Y</p>`), obs: shown("y"), data: data, skip: f.skip},
-			position{name: f.name + " / :class", tpl: w(`<p data-m="y" :class="{k: ` + p + `}">Y</p>`), obs: hasClass("y", "k", nil, nil), data: data, skip: f.skip},
-			position{name: f.name + " / v-if !", tpl: w(`<p data-m="y" v-if="` + np + `">Y</p>`), obs: not(present("y")), data: data, skip: f.skip},
-			position{name: f.name + " / :class !", tpl: w(`<p data-m="y" :class="{k: ` + np + `}">Y</p>`), obs: not(hasClass("y", "k", nil, nil)), data: data, skip: f.skip},
-			position{name: f.name + " / v-show !", tpl: w(`<p data-m="y" v-show="` + np + `">Y</p>`), obs: not(shown("y")), data: data, skip: f.skip},
+			position{name: f.name + " / v-if", tpl: w(`<p data-m="y" v-if="` + p + `">Y</p>`), obs: present("y"), data: data, skip: f.skip, root: root},
+			position{name: f.name + " / v-else-if", tpl: w(`<p data-m="n" v-if="ff">N</p><p data-m="y" v-else-if="` + p + `">Y</p><p data-m="e" v-else>E</p>`), obs: elseIf, data: data, skip: f.skip, root: root},
+			position{name: f.name + " / v-show", tpl: w(`<p data-m="y" v-show="` + p + `">Y</p>`), obs: shown("y"), data: data, skip: f.skip, root: root},
+			position{name: f.name + " / :class", tpl: w(`<p data-m="y" :class="{k: ` + p + `}">Y</p>`), obs: hasClass("y", "k", nil, nil), data: data, skip: f.skip, root: root},
+			position{name: f.name + " / v-if !", tpl: w(`<p data-m="y" v-if="` + np + `">Y</p>`), obs: not(present("y")), data: data, skip: f.skip, root: root},
+			position{name: f.name + " / :class !", tpl: w(`<p data-m="y" :class="{k: ` + np + `}">Y</p>`), obs: not(hasClass("y", "k", nil, nil)), data: data, skip: f.skip, root: root},
+			position{name: f.name + " / v-show !", tpl: w(`<p data-m="y" v-show="` + np + `">Y</p>`), obs: not(shown("y")), data: data, skip: f.skip, root: root},
 		)
 	}
 	return out
@@ -473,6 +523,7 @@ func stackOnlyPosition(name string) bool {
 func allForms() []form {
 	out := append([]form(nil), forms...)
 	out = append(out, promotedForms()...)
+	out = append(out, rootStructForms()...)
 	out = append(out, funcNameForms()...)
 	out = append(out, exprOperandForms()...)
 	out = append(out, callForms()...)
@@ -578,7 +629,42 @@ func truthData(v vals.V) map[string]any {
 	return d
 }
 
+var preludeSerial atomic.Int64
+
+// renderPrelude renders a page that resolves n paths no earlier render of this process has used.
+func renderPrelude(n int) error {
+	serial := preludeSerial.Add(1)
+	var sb strings.Builder
+	zq := map[string]any{}
+	for i := 0; i < n; i++ {
+		key := fmt.Sprintf("s%dk%d", serial, i)
+		zq[key] = map[string]any{"v": "P"}
+		fmt.Fprintf(&sb, `<i :data-a="zq.%s.v" v-if="zq.%s.v">{{ zq.%s.v }}</i>`, key, key, key)
+	}
+	out, err := render(sb.String(), map[string]any{"zq": zq}, "")
+	if err != nil {
+		return fmt.Errorf("prelude page failed: %v", err)
+	}
+	if got := strings.Count(out, `data-a="P"`); got != n {
+		return fmt.Errorf("prelude page: %d of %d bound attributes rendered", got, n)
+	}
+	return nil
+}
+
 func checkTruth(c TruthCase) error {
+	if err := checkTruthPass(c, ""); err != nil {
+		return err
+	}
+	if c.Prelude > 0 {
+		if err := renderPrelude(c.Prelude); err != nil {
+			return err
+		}
+		return checkTruthPass(c, fmt.Sprintf(" [second pass, after a page that resolved %d other paths]", c.Prelude))
+	}
+	return nil
+}
+
+func checkTruthPass(c TruthCase, note string) error {
 	doc, specified := valTruthy(c.Val)
 	want := map[string]bool{}
 	for _, p := range c.Pos {
@@ -596,31 +682,33 @@ func checkTruth(c TruthCase) error {
 		if p.skip != nil && p.skip(c.Val) {
 			continue
 		}
-		data := truthData(c.Val)
-		if p.data != nil {
+		var data any = truthData(c.Val)
+		if p.root != nil {
+			data = p.root(c.Val)
+		} else if p.data != nil {
 			data = p.data(c.Val)
 		}
 		out, err := render(p.tpl, data, "")
 		if err != nil {
-			return fmt.Errorf("x=%s in %s: render failed: %v (template %s)", c.Val, p.name, err, p.tpl)
+			return fmt.Errorf("x=%s in %s: render failed: %v (template %s)%s", c.Val, p.name, err, p.tpl, note)
 		}
 		forest, err := hx.Frag(out, hx.Collapse)
 		if err != nil {
-			return fmt.Errorf("x=%s in %s: output does not parse: %v", c.Val, p.name, err)
+			return fmt.Errorf("x=%s in %s: output does not parse: %v%s", c.Val, p.name, err, note)
 		}
 		got, err := p.obs(forest)
 		if err != nil {
-			return fmt.Errorf("x=%s in %s: %v (template %s, output %q)", c.Val, p.name, err, p.tpl, out)
+			return fmt.Errorf("x=%s in %s: %v (template %s, output %q)%s", c.Val, p.name, err, p.tpl, out, note)
 		}
 		if specified && got != doc {
-			return fmt.Errorf("x=%s is documented %s but position %s treated it as %s (template %s, output %q)",
-				c.Val, tf(doc), p.name, tf(got), p.tpl, out)
+			return fmt.Errorf("x=%s is documented %s but position %s treated it as %s (template %s, output %q)%s",
+				c.Val, tf(doc), p.name, tf(got), p.tpl, out, note)
 		}
 		seen = append(seen, res{p.name, got})
 	}
 	for _, r := range seen[min(1, len(seen)):] {
 		if r.val != seen[0].val {
-			return fmt.Errorf("x=%s is %s in position %s but %s in position %s", c.Val, tf(seen[0].val), seen[0].name, tf(r.val), r.name)
+			return fmt.Errorf("x=%s is %s in position %s but %s in position %s%s", c.Val, tf(seen[0].val), seen[0].name, tf(r.val), r.name, note)
 		}
 	}
 	return nil
